@@ -61,9 +61,9 @@ impl FromStr for Class {
 
     fn from_str(text: &str) -> Result<Self, Self::Err> {
         match Caseless(text) {
-            Caseless("IN") => Ok(Self::IN),
-            Caseless("CH") => Ok(Self::CH),
-            Caseless("HS") => Ok(Self::HS),
+            t if t == Caseless("IN") => Ok(Self::IN),
+            t if t == Caseless("CH") => Ok(Self::CH),
+            t if t == Caseless("HS") => Ok(Self::HS),
             _ => {
                 if text
                     .get(0..5)
